@@ -497,18 +497,33 @@ def case_cuts(arg):
             o = {'n': n, 'k': 'Err', 'steps': 0, 'data': [], 'dataok': True,
                  'tflag': []}
             signal.setitimer(signal.ITIMER_REAL, 15.0)
-            try:
-                g = cls(path, cfg)
+            g = None
+
+            def expose():
                 p = present(g, names)
                 o['k'] = 'Steps'
                 o['steps'] = p['dims'].get('TSTEP', -1)
                 o['data'] = p['data']
                 o['dataok'] = p['dataok']
                 o['tflag'] = p['tflag']
+            try:
+                g = cls(path, cfg)
+                expose()
             except Hang:
                 o['k'] = 'Hang'
             except Exception as ex:
                 o['exc'] = type(ex).__name__
+                if g is not None:
+                    # the file opened and a read was refused: a second attempt
+                    # (a tolerant loop over the variables, a re-run notebook
+                    # cell) must not be handed what the first one was denied
+                    try:
+                        expose()
+                        o['retry'] = True
+                    except Hang:
+                        o['k'] = 'Hang'
+                    except Exception:
+                        pass
             finally:
                 try:
                     signal.setitimer(signal.ITIMER_REAL, 0)
